@@ -436,3 +436,26 @@ func diffClass(a, b string) string {
 	}
 	return "content"
 }
+
+func init() {
+	// vh c07dbg <seed> <set index> <dir>: materialises the inputs of one C07 input set (debug aid)
+	subcommands["c07dbg"] = func(args []string) {
+		var seed uint64
+		var si int
+		fmt.Sscanf(args[0], "%d", &seed)
+		fmt.Sscanf(args[1], "%d", &si)
+		rng := newRNG("C07", seed, si)
+		formats := []string{"jsonschema", "openapi", "cue"}
+		shuffle(rng, formats)
+		npk := rng.Range(2, 3)
+		pkgs := []string{"pka", "pkb", "pkc"}[:npk]
+		for i := 0; i < npk; i++ {
+			am := genAM(newRNG("c07am", seed, si, i), capsFor(formats[i]), pkgs[i], "general")
+			if si%4 != 3 {
+				renameAMObjects(am, strings.ToUpper(pkgs[i][2:]))
+			}
+			in, _ := materializeAM(args[2], am, formats[i])
+			fmt.Println(in.Kind, in.Path, in.Package)
+		}
+	}
+}
